@@ -29,7 +29,7 @@ pub struct Gen { pub rng: StdRng, pub profile: Profile }
 
 const STRS: &[&str] = &["", "a", "A", "abc", " a ", "1", "-7", "+5", "1.5", "true", "x y", "é", "ß", "aBc", "\u{3000}z ", "12abc", "170141183460469231731687303715884105728", "1e5", "inf", "NaN", ".5", "5.", "1_0", "0x1"];
 const DEC_STRS: &[&str] = &["1", "1.50", "-2.5", "0.1", "abc", "", "79228162514264337593543950335", "79228162514264337593543950336", "-0.000"];
-const DATE_STRS: &[&str] = &["1970-01-01T00:00:00Z", "2015-07-30T03:26:13Z", "2015-07-30T03:26:13.5+02:00", "1969-12-31T23:59:59.999999999Z", "2000-02-29T12:00:00-05:30", "2015-07-30", "2015-13-01T00:00:00Z", "2015-02-30T00:00:00Z", "abc", "1", ""];
+const DATE_STRS: &[&str] = &["1970-01-01T00:00:00Z", "2015-07-30T03:26:13Z", "2015-07-30T03:26:13.5+02:00", "1969-12-31T23:59:59.999999999Z", "2000-02-29T12:00:00-05:30", "2015-07-30", "2015-07-30T03:26:13", "2015-13-01T00:00:00Z", "2015-02-30T00:00:00Z", "abc", "1", ""];
 
 impl Gen {
     pub fn new(seed: u64, profile: Profile) -> Self { Gen { rng: StdRng::seed_from_u64(seed), profile } }
